@@ -7,6 +7,8 @@ or are a fixed point of decode . encode . decode, and re-encode to canonical byt
 """
 from __future__ import annotations
 
+import copy
+
 from hypothesis import strategies as st
 
 from vlib import gen_instr as g
@@ -170,10 +172,47 @@ def st_bytes(fname: str):
     return st.one_of(good, good, good, bad)
 
 
+def check_same_bytes_across_flavours(ctx: Ctx) -> int:
+    """the same 7 bytes are different instructions in different flavours: decode equal byte strings under alternating
+    flavours (fresh helper and long-lived decoder objects), in both orders"""
+    from checks.c02 import _ZERO
+    from netqasm.lang.parsing import deserialize
+    from netqasm.lang.subroutine import Subroutine
+    from vlib import refenc
+
+    items = []
+    for fname in g.FLAVOURS:
+        for cls in g.flavour_classes(fname):
+            op = refenc.TABLE[fname].get(cls.mnemonic)
+            if op is None:
+                continue
+            items.append((op[0] if isinstance(op, (tuple, list)) else op, fname, cls))
+    n = 0
+    fl = list(g.FLAVOURS)
+    for order in (sorted(items, key=lambda t: (t[0], fl.index(t[1]))), sorted(items, key=lambda t: (t[0], -fl.index(t[1])))):
+        for _rep in range(2):
+            for _op, fname, cls in order:
+                vals = [copy.deepcopy(_ZERO[k]) for _n, k in g.shape_of(cls)]
+                instr = g.build(cls, vals)
+                case = {"kind": "same-bytes", "flavour": fname, "cls": cls.__name__, "vals": vals}
+                n += 1
+
+                def one():
+                    raw = bytes(Subroutine(instructions=[instr], netqasm_version=(0, 0), app_id=0))
+                    for how, back in (("fresh", deserialize(raw, flavour=g.FLAVOURS[fname]())), ("long-lived", _persistent_deserializer(fname).deserialize_subroutine(raw))):
+                        got = back.instructions
+                        if len(got) != 1 or type(got[0]) is not cls or got[0] != instr:
+                            raise Failure(f"roundtrip:cross-flavour:{fname}:{cls.mnemonic}", case, f"{instr} of flavour {fname} decoded ({how} decoder, after the same bytes were decoded under another flavour) as {[type(i).__module__.split('.')[-1] + '.' + type(i).__name__ for i in got]}")
+
+                ctx.attempt(case, one)
+    return n
+
+
 def shard(ctx: Ctx) -> None:
     stt = ctx.stats
     if ctx.shard == 0:
         check_tables(ctx)
+        stt.exhaustive_domains["every class with all-zero operands, decoded in opcode order across flavours (both orders)"] = check_same_bytes_across_flavours(ctx)
     n_sub = 1500 if ctx.tier == "quick" else 20000
     n_bytes = 600 if ctx.tier == "quick" else 6000
     for fi, fname in enumerate(g.FLAVOURS):
